@@ -1,6 +1,7 @@
 import IsoVerif.Driver.Core
 import IsoVerif.Driver.C03
 import IsoVerif.Model.GtfRef
+import IsoVerif.Model.GtfCheck
 
 namespace IsoVerif.Driver.C03R
 open Lean IsoVerif.Driver IsoVerif.Driver.C03 IsoVerif.Gen IsoVerif.Model IsoVerif.Model.C03
@@ -21,7 +22,24 @@ def ofTables (t : RefTables) : Json :=
   Json.mkObj [("introns", ofList (fun p => Json.arr #[ofNat p.1, ofIvList p.2]) t.introns),
               ("g2t", ofList (fun p => Json.arr #[ofNat p.1, ofNatList p.2]) t.g2t)]
 
+def jExonRec (j : Json) : Except String ExonRec := do
+  pure { seq := ← jNat (← arg j "seq"), tid := ← jNat (← arg j "tid"), iv := ← jIv (← arg j "iv") }
+
+def ofExonRec (r : ExonRec) : Json := Json.arr #[ofNat r.seq, ofNat r.tid, ofIv r.iv]
+
+def ofVerdict : ExonVerdict → Json
+  | .ok => ofStr "ok"
+  | .dup => ofStr "dup"
+  | .overlap => ofStr "overlap"
+
 def ops : List (String × Handler) := [
+  -- exon block of check_gtf_duplicates: gtf_correct, exon lines of the corrected annotation, verdict per line; repaired and pinned
+  ("exon_check", fun j => do
+      let l ← jList jExonRec (← arg j "lines")
+      let r := exonCheck l
+      let o := exonCheckOrig l
+      pure (Json.mkObj [("correct", ofBool r.1), ("kept", ofList ofExonRec r.2), ("verdicts", ofList ofVerdict (exonVerdicts l)),
+                        ("orig_correct", ofBool o.1), ("orig_kept", ofList ofExonRec o.2)])),
   -- keys of all_isoforms_exons of the chromosome-wide GeneInfo, and from_reference_transcript on one id
   ("isoforms", fun j => do
       let a ← jChrAnn (← arg j "ann")
